@@ -100,7 +100,7 @@ def run(tier):
             cl += [f"(lambda r: r.{meth}({a}))({recv})" for a in alias_args]
         if not q:
             # arity 3 over a reduced catalogue
-            cl += [f"{expr}({a}, {b}, {c})" for a, b, c in itertools.product(small[::2], repeat=3)]
+            cl += [f"{expr}({a}, {b}, {c})" for a, b, c in itertools.product(small, repeat=3)]
         for i in range(0, len(cl), CH):
             chunk = cl[i:i + CH]
             src = PRE + "".join(f"emit(probe(lambda: {c}))\n" for c in chunk)
@@ -129,7 +129,7 @@ def run(tier):
         meta.append(("solo", n, None))
     specs.append({"libs": LIB, "steps": [PROBE]})
     meta.append(("probe0", None, None))
-    L = 2 if q else 3
+    L = 2 if q else 4
     for n in range(1, L + 1):
         for seq in itertools.product(names, repeat=n):
             steps = []
